@@ -95,6 +95,8 @@ def run(tier, seed):
                 "periods that do and do not divide the run, output with and without particle variables, a directed family in which the newest particles die soon "
                 "after release) x a warm start from every completed output file, plus one chained restart from the first file the restarted run completed; "
                 "non-trivial = number of restarts")
-    rep.assumptions = ["diffusion off; output written as f8 / i4 so 'up to output precision' is equality", "forward time (reversed warm starts are outside LADiM's supported set-ups)",
+    rep.assumptions = ["diffusion off; output written as f8 / i4 so 'up to output precision' is equality",
+                       "state that an IBM changes (age, release row, activity flag of particles put to rest) is written with the records and named in warm_start.variables: "
+                       "what is not in the restart file cannot be restored", "forward time (reversed warm starts are outside LADiM's supported set-ups)",
                        "records with time < stop are compared (a warm-started run also writes a record at the stop time: WarmFinalRecord, DESIGN 4)"]
     return rep
